@@ -453,7 +453,7 @@ func scenarios(t *testing.T, seed int64, thorough bool, emit func(sc scenario, s
 							faulty = append(faulty, m)
 						}
 					}
-					if ki > 0 || (!thorough && sh.n == 4) { // fewer combinations off the main line
+					if ki > 0 || sh.n == 4 { // fewer combinations off the main line and for the many shapes on 4 modules
 						faulty = []int{faulty[rng.Intn(len(faulty))]}
 					}
 				}
